@@ -816,6 +816,11 @@ def pinned_traces(tier):
                     {"op": "c09.set", "entry": other, "v": Y, "kind": "good", "slide": 0, "i": 1},
                     {"op": "checkpoint", "sink": "seekable"}, {"op": "restart"}]
             out.append({"property": ID, "seed": "shared-url-%s-%s" % (eid, second["k"]), "tier": "pinned", "config": {"pinned": True}, "start": [{"deck": "default"}], "events": evs})
+    evs = list(kit_events()) + [{"op": "c09.set", "entry": "shape.left", "v": I(111111), "kind": "good", "slide": 0, "i": 0}]
+    evs += [{"op": "checkpoint", "sink": "seekable"}] + [{"op": "checkpoint", "sink": "seekable", "fault": {"kind": k_, "at": 50, "at_frac": f_, "sticky": False}} for k_, f_ in (("enospc", 0.97), ("eio", 0.995), ("enospc", 0.6))]
+    evs += [{"op": "c09.set", "entry": "shape.left", "v": I(555555), "kind": "good", "slide": 0, "i": 0}, {"op": "c09.set", "entry": "font.bold", "v": B(True), "kind": "good", "slide": 0, "i": 0},
+            {"op": "c09.set", "entry": "prs.slide_width", "v": I(9000000), "kind": "good", "slide": 0, "i": 0}, {"op": "checkpoint", "sink": "seekable"}, {"op": "restart"}]
+    out.append({"property": ID, "seed": "late-failed-save-then-edit", "tier": "pinned", "config": {"pinned": True}, "start": [{"deck": "default"}], "events": evs})
     evs = list(kit_events())
     for i, v in ((0, F(0.4)), (1, F(0.1)), (0, F(0.0)), (1, F(0.16667))):
         evs.append({"op": "c09.set", "entry": "adj.value", "v": v, "kind": "good", "slide": 0, "i": i})
